@@ -681,3 +681,38 @@ func (la *LockAn) ReportLeaks(c *Check, id string, funcs []*ssa.Function) {
 	c.Report(true, id, "LOCK-BALANCE-SCANNED", nil, token.NoPos, "package scan", "functions that acquire locks were scanned for returns with an own lock still held")
 	c.Floor(id, "functions acquiring locks", n, 1)
 }
+
+// MayHoldAt lists the locks that fn itself may still hold when it reaches
+// site on some path: a Lock/RLock of fn from which site is reachable without
+// passing a (non-deferred) unlock of the same lock. Complements Held, which is
+// the must-hold set.
+func (la *LockAn) MayHoldAt(site ssa.Instruction) LockSet {
+	fn := site.Parent()
+	out := LockSet{}
+	var ops []ssa.CallInstruction
+	for _, cl := range CallsIn(fn) {
+		if _, ok := la.opOf(cl); ok {
+			ops = append(ops, cl)
+		}
+	}
+	for _, l := range ops {
+		op, _ := la.opOf(l)
+		if op.mode != 'W' && op.mode != 'R' {
+			continue
+		}
+		if _, isDefer := l.(*ssa.Defer); isDefer {
+			continue
+		}
+		cut := NewCut()
+		for _, u := range ops {
+			uo, _ := la.opOf(u)
+			if _, isDefer := u.(*ssa.Defer); !isDefer && uo.id == op.id && (uo.mode == 'w' || uo.mode == 'r') {
+				cut.AddInstrs(u)
+			}
+		}
+		if ReachAfter(l, cut)[site] {
+			out[op.id] = op.mode
+		}
+	}
+	return out
+}
